@@ -875,22 +875,31 @@ func ruleC02NonZero(w *World, r *Report) {
 	sts := fieldStores(f, "PFCPSession")["localSEID"]
 	r.floor("R02.5 stores to PFCPSession.localSEID in NewPFCPSession", len(sts), 1)
 	for _, st := range sts {
-		v := st.Val
-		g := onlyVia(f, st, func(a, b *ssa.BasicBlock) bool {
-			x, op, y, ok := edgeFact(a, b)
-			if !ok {
+		nonZero := func(v ssa.Value) bool {
+			return onlyVia(f, st, func(a, b *ssa.BasicBlock) bool {
+				x, op, y, ok := edgeFact(a, b)
+				if !ok {
+					return false
+				}
+				if x == v {
+					k, isK := constInt(y)
+					return isK && k == 0 && (op == token.NEQ || op == token.GTR)
+				}
+				if y == v {
+					k, isK := constInt(x)
+					return isK && k == 0 && (op == token.NEQ || op == token.LSS)
+				}
 				return false
+			})
+		}
+		// the stored variable itself was tested, or every value it can hold where it is stored was
+		g := nonZero(st.Val)
+		if !g {
+			g = true
+			for _, v := range valuesAt(st.Val, st) {
+				g = g && nonZero(v)
 			}
-			if x == v {
-				k, isK := constInt(y)
-				return isK && k == 0 && (op == token.NEQ || op == token.GTR)
-			}
-			if y == v {
-				k, isK := constInt(x)
-				return isK && k == 0 && (op == token.NEQ || op == token.LSS)
-			}
-			return false
-		})
+		}
 		r.check(g, "R02.5", fn, "UP SEID compared with 0 before it is used", w.Pos(st.Pos()), "dominated by lseid != 0", "the random UP SEID may be 0: the session is then not stored (PutSession refuses 0) although the response says accepted")
 	}
 }
